@@ -511,7 +511,10 @@ class Seam:
                     crel = rel[len(pref):]
                     break
             ctx = crel + '#' + str(v)
+            natural = [e.name for e in entries]
             entries.sort(key=lambda e: _h(self.order_key, ctx, e.name))
+            if len(entries) > 1 and [e.name for e in entries] != sorted(natural):
+                self.stats['permuted_listings'] = self.stats.get('permuted_listings', 0) + 1
         return ScandirProxy(self, path, rel, entries)
 
     def _os_listdir(self, path='.'):
